@@ -18,6 +18,7 @@ TREE_RULE = ("cases = (tree type alias x element type x input spec x constructio
 
 PLANS = {
     "C01": dict(
+        logcheck=True,
         lanes=dict(quick=[("rel", N), ("dbg", N), ("miri", N)],
                    thorough=[("rel", N), ("dbg", N), ("asan", N), ("miri", N), ("mirirel", N)]),
         rule=TREE_RULE,
@@ -25,6 +26,7 @@ PLANS = {
         gates=dict(rel=dict(max_levels=64, max_select_samples_one_symbol=3, max_n=300000)),
     ),
     "C02": dict(
+        logcheck=True,
         lanes=dict(quick=[("rel", N), ("dbg", N), ("miri", N)],
                    thorough=[("rel", N), ("dbg", N), ("asan", N), ("miri", N), ("mirirel", N)]),
         rule=TREE_RULE + " Huffman-shaped trees are built several times per input: with the natural hash-map order and with "
@@ -34,6 +36,7 @@ PLANS = {
                             max_distinct_tie_forms_one_input=2)),
     ),
     "C03": dict(
+        logcheck=True,
         lanes=dict(quick=[("rel", N), ("dbg", N), ("miri", N)],
                    thorough=[("rel", N), ("dbg", N), ("asan", N), ("miri", N), ("mirirel", N)]),
         rule=TREE_RULE,
